@@ -6,13 +6,12 @@ ID = "C03"
 LEAN_MODULES = ["Ccp.Props.C03"]
 RULE = ("C01's generator biased to banner/macro bodies (indented, blank and deeper-indented body lines, delimiter lines that are "
         "themselves indented, nested starts, unterminated banners/macros), the vendor fixtures, x syntax x ignore_blank_lines x "
-        "comment delimiters; every line's stored parent, stored child list and the seven derived views are dumped. "
-        "Stored-list stream (model Ccp.Model.TreeStored, channel treestored): the RAW attributes obj.parent / obj._children, "
-        "translated to positions by object identity, at three observation points -- after CiscoConfParse(lines), after one "
-        "ConfigList.bootstrap(lines), and after the indentation loop alone (the banner and macro walks replaced by no-ops on that "
-        "ConfigList instance) -- on banner/macro blocks (also indented under preceding lines, banner starts inside macro bodies, "
-        "nested banner starts), comments and blank lines that follow a deeper-indented line, ignore_blank_lines on/off, all "
-        "delimiter sets, plus a hand-picked corpus (F02's witness, a line that changes parent twice, a list that needs the sort). "
+        "comment delimiters; plus the two banner/macro link streams shared with C02 (random token sequences over ten banner-start "
+        "forms, four macro-start forms, closing lines at indents 0..2, '@' variants, deeper body lines and dedenting tails; banner / "
+        "macro blocks spliced INTO one another: nested and overlapping starts, macro inside banner and vice versa, unterminated "
+        "stretches) and every sequence of length <= 3 (quick) / <= 4 (thorough) containing a start over the 11 link symbols; "
+        "every line's stored parent, stored child list and the seven derived views are dumped. The oracle also requires, on fresh "
+        "parses, that every line owned by a banner / macro start (Spec/BannerLinks) is a direct child of exactly that start. "
         "non-trivial = the parse has a line with a parent; distinct by request.")
 LEVEL_TEXT = ("Theorems (Lean 4, no size bounds; Ccp.Props.C03 over the model Ccp.Model.Tree of ConfigList.bootstrap for the indentation "
               "syntaxes and of the BaseCfgLine family views). parse_forest / bootstrap_forest / link_forest: for every text list and every "
@@ -30,23 +29,15 @@ LEVEL_TEXT = ("Theorems (Lean 4, no size bounds; Ccp.Props.C03 over the model Cc
               "i :: all_children), siblings_spec (the parent's children of equal indent, ascending; for a root its own children of equal "
               "indent), self_mem_siblings, flags_spec (is_parent iff child list non-empty iff some other line names i as parent; is_child "
               "iff not a root). The loop bounds (fuel = number of lines) of the model's all_children / all_parents are proved sufficient. "
-              "STORED child lists (model Ccp.Model.TreeStored: per line the parent AND the list the code keeps in BaseCfgLine._children; "
-              "newLine / addChild / reparent mirror object creation, _add_child_to_parent (None parent, comment exception, "
-              "'child.parent is child', append) and _reparent_child (filter the former parent's list unless the former parent is the child "
-              "or the new parent; set parent; append unless member; sort by line number); the four passes run over that state): for every "
-              "option set and every line list, stored_parents_eq (forgetting the stored lists gives exactly parse: same texts, parents, keep "
-              "flags), stored_children_eq_derived (the stored list of every index equals the derived child list; the table of stored lists "
-              "is the table of derived lists), stored_bootstrap_eq_derived (the same for one bootstrap and for passes 1-3), "
-              "stored_children_ascending, stored_child_exactly_once (a line with a parent is in exactly its parent's stored list, once, and "
-              "occurs once in all stored lists together), stored_root_in_no_list, reparent_keeps_stored_eq_derived (one _reparent_child(p, c) "
-              "with p < c on ANY state whose stored lists are the derived ones yields the derived lists of the re-parented tree). "
-              "All theorems are at full strength; none is partial. The correspondence checks on every run that the implementation's raw "
-              "parent / _children attributes equal the stored-list model's (full parse, one bootstrap, after the indentation loop) and that "
-              "its seven views equal the parent-only model's.")
-LEVEL_NOTE = ("Trusted: Lean kernel, standard axioms (propext, Classical.choice, Quot.sound), the harness. That the stored child lists equal the "
-              "derived ones is proved for the stored-list model, which performs the code's list operations one by one; that this model (and the "
-              "hand-written banner/macro scanners it shares with Ccp.Model.Tree) is the code is measured by the correspondence on every run on "
-              "the raw attributes, as is the agreement of the seven views. Not proved here: the forest invariant after arbitrary committed edit sequences (commit_forest; the "
+              "body_line_child_of_start (+ banner_body_line_child, macro_body_line_child): in the final tree of ANY line list under any "
+              "option set, a line owned by a start line s -- the last 'macro name' line (ios) whose stretch reaches it, else the last banner "
+              "start whose stretch reaches it; stretches include the closing line and run to the end when unterminated -- has s < i, parent "
+              "s, occurs exactly once in s's child list and in no other: banner / macro families are flat however the body is indented. "
+              "All theorems are at full strength; none is partial. The correspondence checks on every run that the implementation's STORED "
+              "parent links, STORED child lists and its seven views equal the model's derived ones.")
+LEVEL_NOTE = ("Trusted: Lean kernel, standard axioms (propext, Classical.choice, Quot.sound), the harness. The model derives child lists from "
+              "the parent indices; that the code's stored child lists (and views) agree with the derived ones is measured by the correspondence "
+              "on every run, not proved. Not proved here: the forest invariant after arbitrary committed edit sequences (commit_forest; the "
               "re-bootstrap that commit() performs is covered, the edit operations are C07's state machine) and for brace-syntax (junos) "
               "trees (C08's model).")
 ASSUMPTIONS = ["no lone surrogates", "brace syntax trees are covered by C08's check, edit histories by C07's"]
@@ -80,6 +71,16 @@ def cases(rng, tier):
                                        ["app", rng.choice([" ", "  ", "    "])],
                                        ["sub", rng.randrange(64), r"\S.*", ""]]))
             yield mk_hist(rng.choice(T.SYNTAXES), ign, lines, ops)
+    if tier != "search":
+        k = 0
+        for lines in T.link_pattern_configs(3 if tier == "quick" else 4):
+            yield mk(("ios", "nxos")[k % 2], False, None, lines, "link-pattern")
+            k += 1
+    for k in range({"quick": 1000, "thorough": 40000, "search": 2000}[tier]):
+        delims = rng.choice(T.DELIM_SETS)
+        lines = T.rand_link_config(rng, delims) if k % 2 == 0 else T.rand_nested_config(rng, delims)
+        yield mk(rng.choice(["ios", "ios"] + T.SYNTAXES), rng.random() < 0.3, delims, lines,
+                 "link-random" if k % 2 == 0 else "link-nested")
     for _ in range(n):
         delims = rng.choice(T.DELIM_SETS)
         lines = []
@@ -377,7 +378,17 @@ def oracle(case, ans):
     if len(kept) != len(parents):
         return []     # losslessness is C01's business
     indents = [len(t) - len(t.lstrip()) for t in kept]
-    return check_forest(parents, children, views, indents)
+    fails = check_forest(parents, children, views, indents)
+    if case.get("ops") is None and not fails:
+        # banner / macro families are flat: a line owned by a start line is a direct child of exactly that start
+        for i, (mo, bo) in enumerate(T.owners(kept, case["syntax"] == "ios")):
+            o = mo if mo is not None else bo
+            if o is not None and (parents[i] != o or i not in children[o]):
+                fails.append(f"line {i} lies in the stretch of start line {o} but its parent is {parents[i]} "
+                             f"and the child list of {o} is {children[o]}")
+            if o is None and parents[i] != i and indents[i] == 0:
+                fails.append(f"unindented line {i} outside every banner / macro stretch has parent {parents[i]}")
+    return fails[:3]
 
 
 def nontrivial(case):
@@ -405,4 +416,8 @@ def buckets(case, ans):
         out.append("has:banner")
     if any(l[:11] == "macro name " for l in case["lines"]):
         out.append("has:macro")
+    out.append("origin:" + case.get("_origin", "gen").split(":")[0])
+    if case.get("ops") is None and len(case["lines"]) <= 40 and ("has:banner" in out or "has:macro" in out):
+        kept = T.ref_kept(case["lines"], case["syntax"] == "ios", case["ignore_blank"])
+        out += ["feat:" + f for f in sorted(T.link_features(kept, case["syntax"] == "ios", T.cfg_delims(case["syntax"], case["delims"])))]
     return out
